@@ -58,6 +58,11 @@ def data(shape, n, rs):
     raise KeyError(shape)
 
 
+def pmax_hint(Pd):
+    f = np.isfinite(Pd)
+    return float(np.max(np.abs(Pd[f]))) if f.any() else 1.0
+
+
 def fxq(a):
     return O.fx(a, S)
 
@@ -204,6 +209,26 @@ def _observe(job):
                         TLo.append(min(t_in / qq, 1e3))       # the side towards the tail end must not exceed q
                         THi.append(min(t_out / qq, 1e3))      # the side towards the centre must reach q
             LP = np.asarray(m.log_probability_density(grid.copy()), dtype=float)
+            # every element of a batch is evaluated for itself: one-element calls, the reversed batch, and a batch whose other
+            # elements lie far outside the data / at the ends of [0, 1] give the same values (root finders: to 1e-6 of the range)
+            rsb = np.random.RandomState(seed + 7)
+            pick = rsb.choice(len(grid), size=8, replace=False)
+            qpick = Qin[rsb.choice(len(Qin), size=8, replace=False)]
+            batchdev = 0.0
+            for f, pts, full, extra, scale_ in ((m.cumulative_distribution, grid[pick], F[pick], np.array([lo - 50 * span, hi + 50 * span]), 1.0),
+                                               (m.probability_density, grid[pick], Pd[pick], np.array([lo - 50 * span, hi + 50 * span]), max(pmax_hint(Pd), 1e-300)),
+                                               (m.percent_point, qpick, None, np.array([0.0, 1.0, 1e-9]), span)):
+                base = np.asarray(f(pts.copy()), dtype=float) if full is None else full
+                one = np.array([float(np.ravel(f(np.array([x])))[0]) for x in pts])
+                rev = np.asarray(f(pts[::-1].copy()), dtype=float)[::-1]
+                mixed = np.asarray(f(np.concatenate([extra[:1], pts, extra[1:]])), dtype=float)[1:1 + len(pts)]
+                for other in (one, rev, mixed):
+                    ok_ = np.isfinite(base) & np.isfinite(other)
+                    if (np.isfinite(base) != np.isfinite(other)).any():
+                        batchdev = max(batchdev, 1.0)
+                    if ok_.any():
+                        batchdev = max(batchdev, float(np.max(np.abs(base[ok_] - other[ok_]))) / scale_)
+            rec['batchdev'] = int(min(batchdev, 1.0) * 1e9)
             pos = Pd > 1e-300
             # where the density is zero (outside a bounded support, or underflow) the log density must be -inf or below the
             # underflow range of doubles: both sides are cut at -690 (= log 1e-300)
@@ -226,6 +251,7 @@ def _observe(job):
             rec['trace'] = traceback.format_exc(limit=-2)[-400:]
         for k_ in ('F', 'P', 'I6', 'I3', 'DF', 'Q', 'XQ', 'FM', 'FP', 'XB', 'XBack', 'LP', 'LPlog', 'TLo', 'THi'):
             rec.setdefault(k_, [])
+        rec.setdefault('batchdev', 0)
         rec.setdefault('Flo', 0)
         rec.setdefault('Fhi', S)
         rec.setdefault('xtol', 10)
